@@ -168,6 +168,8 @@ def validateInterfaceName(n):
             raise Exception('Name exceeds maximum length of 255')
         if n[0] == '.':
             raise Exception('Names may not begin with a "."')
+        if n[-1] == '.':
+            raise Exception('Names may not end with a "."')
         if n[0].isdigit():
             raise Exception('Names may not begin with a digit')
         if if_re.search(n):
@@ -202,8 +204,12 @@ def validateBusName(n):
             raise Exception('".." not allowed in bus names')
         if len(n) > 255:
             raise Exception('Name exceeds maximum length of 255')
-        if n[0] == '.':
+        if n[0] == '.' or n.startswith(':.'):
             raise Exception('Names may not begin with a "."')
+        if n[-1] == '.':
+            raise Exception('Names may not end with a "."')
+        if ':' in n[1:]:
+            raise Exception('":" is only allowed as the first character')
         if n[0].isdigit():
             raise Exception('Names may not begin with a digit')
         if bus_re.search(n):
